@@ -16,14 +16,14 @@ PROP = dict(
         assumptions=['grammar subset: Name/Scope/Device/Method/OpRegion/Field/Mutex/Event/Processor/PowerResource/ThermalZone, '
                      'integer/string/buffer/package data, Store/Return/Add/If/While/calls with 0-7 arguments (forward, backward, nested), '
                      'all name forms, every PkgLength width, 1-3 tables'],
-        level_text='proof (partial). Lean theorems for all inputs: const_roundtrip (integer constants decode to the encoded value and '
-                   'advance exactly), facts_agree (the generated tables this run saw are the ones the parser model is built on); the '
+        level_text='proof (partial). Lean theorems for all inputs: pkglen_roundtrip (all four PkgLength encodings decode to the encoded value and '
+                   'advance exactly), const_roundtrip (integer constants likewise), facts_agree (the generated tables this run saw are the ones the parser model is built on); the '
                    'lexical layer shared with C12 (reader_inv, slices_in_table_partial, opcode_table_sane) applies to every decoder used. '
                    'The property itself - parseAML(encode p) succeeds and nsOf = namespaceOf p - is NOT a theorem: it is decided for every '
                    'generated program by the executable specification namespaceOf (ACPI scoping rules written directly) and the '
                    'differential oracle on the real parser, and it is false today for six program shapes (known findings).',
-        level_note='Partial: no whole-parser theorem (parse_encode, flat_decls_partial, call_arity_partial, pkglen/name/string round trips '
-                   'are not proved; only const_roundtrip and the shared lexical safety theorems are). Known findings (reported as '
+        level_note='Partial: no whole-parser theorem (parse_encode, flat_decls_partial, call_arity_partial and the name/string round trips '
+                   'are not proved; pkglen_roundtrip, const_roundtrip and the shared lexical safety theorems are). Known findings (reported as '
                    'KNOWN-FINDING, each with a witness in the deterministic boundary list): multi-segment paths through a Device are '
                    'rejected (D6); ^-prefixed declarations inside a Device land one level too low; a call whose argument is an '
                    'expression gets the wrong arguments; an If without object-creating body fails/swallows the next statement; inside '
